@@ -196,7 +196,7 @@ def _axioms_of(body):
     ax = []
     for line in body.split('\n'):
         m = re.match(r'^([A-Za-z_][A-Za-z0-9_\.\']*)\s*:', line)
-        if m:
+        if m and line.strip() != 'Axioms:':
             ax.append(m.group(1))
     return ax
 
